@@ -110,12 +110,3 @@ func (h *VerifNodeHandle) Release() {
 	}
 	h.ref = nodeRef{}
 }
-
-func VerifSearchNode4(keys uint32, b byte) int    { return searchNode4(keys, b) }
-func VerifInsertPosNode4(keys uint32, b byte) int { return insertPosNode4(keys, b) }
-func VerifSearchNode16(keys *[16]byte, n uint8, b byte) int {
-	return searchNode16(keys, n, b)
-}
-func VerifInsertPosNode16(keys *[16]byte, n uint8, b byte) int {
-	return insertPosNode16(keys, n, b)
-}
